@@ -103,7 +103,8 @@ func (p *PlonkChip) checkPartialProducts(
 		ppStartIdx := i * quotDegreeFactor
 		numeProduct := numerators[ppStartIdx]
 		denoProduct := denominators[ppStartIdx]
-		for j := uint64(1); j < quotDegreeFactor; j++ {
+		// The last chunk is shorter when the quotient degree factor does not divide the number of routed wires.
+		for j := uint64(1); j < quotDegreeFactor && ppStartIdx+j < uint64(len(numerators)); j++ {
 			numeProduct = glApi.MulExtension(numeProduct, numerators[ppStartIdx+j])
 			denoProduct = glApi.MulExtension(denoProduct, denominators[ppStartIdx+j])
 		}
